@@ -15,6 +15,8 @@ pub enum Frag {
 	SplitAt(usize),
 	/// pseudo-random short reads
 	Random(u64),
+	/// pseudo-random short reads; now and then a call is interrupted before any byte is transferred (EINTR)
+	RandomIntr(u64),
 }
 
 /// An in-memory stream with scheduled short reads and an optional injected fault.
@@ -32,7 +34,7 @@ pub struct FragReader<'a> {
 impl<'a> FragReader<'a> {
 	pub fn new(data: &'a [u8], frag: Frag) -> Self {
 		let seed = match &frag {
-			Frag::Random(s) => *s,
+			Frag::Random(s) | Frag::RandomIntr(s) => *s,
 			_ => 0,
 		};
 		FragReader {
@@ -82,6 +84,14 @@ impl<'a> Read for FragReader<'a> {
 				}
 			}
 			Frag::Random(_) => {
+				let lim = 1 + self.rng.below(9) as usize;
+				n = n.min(lim);
+			}
+			Frag::RandomIntr(_) => {
+				// not an error of the stream: the caller is expected to call again (std's read_exact does)
+				if self.rng.below(8) == 0 {
+					return Err(io::Error::new(io::ErrorKind::Interrupted, "interrupted"));
+				}
 				let lim = 1 + self.rng.below(9) as usize;
 				n = n.min(lim);
 			}
